@@ -63,6 +63,28 @@ def build_programs(pq):
     P["gaussian_homodyne"] = (lambda cfg: pq.GaussianSimulator(d=2, config=cfg),
                               gauss(pq.HomodyneMeasurement(), modes=(0,)))
 
+    # one-mode Gaussian programs: cheap per shot, used with shot counts on both sides of
+    # plausible chunk sizes of a parallel branch
+    def gauss1(meas):
+        with pq.Program() as p:
+            pq.Q(all) | pq.Vacuum()
+            pq.Q(0) | pq.Squeezing(r=0.9)
+            pq.Q(0) | pq.Displacement(r=0.8, phi=0.4)
+            pq.Q(all) | meas
+        return p
+
+    def with_options(cfg, **kw):
+        c = cfg.copy()      # shares the generators with cfg
+        for k, v in kw.items():
+            setattr(c, k, v)
+        return c
+
+    P["gaussian_pnm1"] = (lambda cfg: pq.GaussianSimulator(d=1, config=cfg),
+                          gauss1(pq.ParticleNumberMeasurement()))
+    P["gaussian_threshold_haf1"] = (
+        lambda cfg: pq.GaussianSimulator(d=1, config=with_options(cfg, use_torontonian=False)),
+        gauss1(pq.ThresholdMeasurement()))
+
     def fock(meas, modes=None, r0=1.2, theta=np.pi / 4):
         # (the programs of different kinds are physically different, so that equal samples
         # can only come from equal generator states)
@@ -146,6 +168,9 @@ def main():
                 if s < len(sims):
                     res = sims[s].execute(programs[kind][1], shots=shots)
                     results.append(jsonable(res.samples))
+            elif name == "SetSeed":
+                if op[1] < len(configs):
+                    configs[op[1]].seed_sequence = op[2]
             elif name == "GlobalDraw":
                 random.random()
             elif name == "ReprConfig":
@@ -163,10 +188,11 @@ def main():
 
 
 def _default_simulator(pq, kind):
-    d = {"passive_pnm": 3, "fermionic_fock_pnm": 4}.get(kind, 2)
+    d = {"passive_pnm": 3, "fermionic_fock_pnm": 4, "gaussian_pnm1": 1}.get(kind, 2)
     cls = {
         "passive_pnm": pq.PassiveSimulator,
         "gaussian_pnm": pq.GaussianSimulator,
+        "gaussian_pnm1": pq.GaussianSimulator,
         "gaussian_threshold_tor": pq.GaussianSimulator,
         "gaussian_homodyne": pq.GaussianSimulator,
         "purefock_pnm": pq.PureFockSimulator,
